@@ -37,8 +37,10 @@ RULE = ("one case = one saturation_mutagenesis() call for (alphabet size A, "
 	"(target, hypothetical) pair); X, integer weights and arg values come "
 	"from the case seed.  Classes win / negend enumerate ALL windows 0 <= "
 	"start < end <= L (negend: every negative end, L+1+end > start) for every "
-	"A in 2..5 and every L up to the tier bound, each window with tensor "
-	"outputs (n,), (n,T), (n,T,K) and tuple/list outputs of 2-3 tensors; "
+	"A in 2..5 and every L up to the tier bound (quick 7, thorough 30), each "
+	"window with tensor outputs (n,), (n,T), (n,T,K) and tuple/list outputs "
+	"of 2-3 tensors (L > 12: one single-tensor and one multi-tensor "
+	"structure per window, rotating); "
 	"class batch enumerates every batch size 1..A*W+1 for every window of "
 	"small L; class attr enumerates windows x (int / negative int / slice / "
 	"None target) x hypothetical for tensor models; class rand draws L up to "
@@ -84,6 +86,7 @@ KINDS = [
 	("tensor", [[1]]),
 ]
 TENSOR_KINDS = [k for k in KINDS if k[0] == "tensor"]
+LALL = 12     # up to this length every window meets every output structure
 
 
 # --------------------------------------------------------------------------
@@ -662,17 +665,19 @@ def plan(tier, seed):
 	if tier == "quick":
 		Lwin, Lattr, Lbatch, nrand, per = 7, 5, 3, 32, 12
 	else:
-		Lwin, Lattr, Lbatch, nrand, per = 30, 14, 5, 320, 40
+		Lwin, Lattr, Lbatch, nrand, per = 30, 12, 5, 320, 40
 	for A in (2, 3, 4, 5):
 		for L in range(1, Lwin + 1):
-			w = 1 + A * L ** 3 / 20.0
-			# heavy (A, L) cells are split by kind so that they spread
-			parts = [list(range(len(KINDS)))] if L <= 12 else [[k] for k in
-				range(len(KINDS))]
-			for ks in parts:
+			# L <= LALL: every window with every output structure; longer
+			# sequences: every window with one single-tensor and one
+			# multi-tensor structure (rotating), split into parts
+			nk = len(KINDS) if L <= LALL else 2
+			nparts = 1 if L <= LALL else 1 + L // 8
+			w = (1 + A * L ** 3 / 20.0) * nk / nparts
+			for part in range(nparts):
 				for cls in ("win", "negend"):
-					units.append({"cls": cls, "A": A, "L": L, "kinds": ks,
-						"seed": seed, "weight": w * len(ks)})
+					units.append({"cls": cls, "A": A, "L": L, "part": part,
+						"nparts": nparts, "seed": seed, "weight": w})
 		for L in range(1, Lattr + 1):
 			units.append({"cls": "attr", "A": A, "L": L, "seed": seed,
 				"weight": 1 + A * L ** 3 / 4.0})
@@ -689,12 +694,16 @@ def run_unit(unit, rec):
 	cls, seed = unit["cls"], unit["seed"]
 	if cls in ("win", "negend"):
 		A, L = unit["A"], unit["L"]
-		c = 0
-		for (s, e) in windows(L):
+		multi = [k for k in range(len(KINDS)) if KINDS[k][0] != "tensor"]
+		single = [k for k in range(len(KINDS)) if KINDS[k][0] == "tensor"]
+		for wi, (s, e) in enumerate(windows(L)):
+			if wi % unit["nparts"] != unit["part"]:
+				continue
 			end = e if cls == "win" else e - L - 1
-			for k in unit["kinds"]:
-				c += 1
-				run_case(cls, mk(A, L, s, end, KINDS[k], c * 7 + k, seed), rec)
+			ks = range(len(KINDS)) if L <= LALL else (single[wi % len(single)],
+				multi[wi % len(multi)])
+			for k in ks:
+				run_case(cls, mk(A, L, s, end, KINDS[k], wi * 7 + k, seed), rec)
 		rec.mark_exhaustive(cls)
 	elif cls == "batch":
 		A, L = unit["A"], unit["L"]
